@@ -71,7 +71,8 @@ def sessEvent (st : SessSt) (ev : String) : Option (SessSt × String) :=
   | ["recv", op, it, dgs] => do
     let op ← parseOp op
     let iti : Option Nat ← (if it = "-" then some none else (parseNat it).map some)
-    let dgl ← (if dgs = "-" then some [] else (dgs.splitOn ":").mapM parseHex)
+    -- "." = nothing arrives; otherwise datagrams joined with ":" ("-" is one EMPTY datagram)
+    let dgl ← (if dgs = "." then some [] else (dgs.splitOn ":").mapM parseHex)
     let itv := iti.bind (fun i => st.iters[i]?)
     let (out, s', it', rest) := st.sess.recvLoop ciphersX op itv dgl
     let iters := match iti, it' with
